@@ -74,6 +74,7 @@ var ipAddrs = map[string][]string{
 	"loop4": {"/ip4/127.0.0.1"}, "loop6": {"/ip6/::1"}, "unspec4": {"/ip4/0.0.0.0"}, "unspec6": {"/ip6/::"},
 	"linklocal": {"/ip4/169.254.1.1", "/ip6/fe80::1"}, "dns": {"/dns4/example.com", "/dns/ipni.example.org", "/dns6/example.net"}, "localhost": {"/dns/localhost", "/dns4/localhost"},
 }
+
 const encapsulated = "/p2p/12D3KooWQSMKybsYFnNyCGzFUJPgXLPxbGmuZp5xDrhEYyGkWfQ6"
 
 var sfx = map[string]string{"none": "/tcp/3003", "bare80": "/tcp/80", "http": "/tcp/80/http", "https": "/tcp/443/https", "tls-http": "/tcp/443/tls/http",
